@@ -3,15 +3,18 @@ import Goyang.Model.Session
 Session driver (property C18): one request = one history on one `Modules` value.
 
   session <ignoreCircular 0/1> <ignoreNotSupported 0/1> <op>*
-      op := "L" <buildOk 0/1> <file in wire format: F name stmts E>     load  (Modules.Parse)
+      op := "T" <file name hex> <text hex>                                load of a raw text (Modules.Parse): generic
+                                                                          parser, AST builder and registry run in Lean
+          | "L" <buildOk 0/1> <file in wire format: F name stmts E>       load of a text given as statement trees;
+                                                                          buildOk: what parser + builder said in Go
           | "P"                                                           process
           | "R" <key-hex> <path-hex>                                      read  (ToEntry(ms.Modules[key]).Find(path))
       -> `outsideModel <why>` | the answers, one per op, joined by " || ":
-           load:    `accepted` | `rejected-build` | `rejected-add` (duplicate) | `rejected-notmodule`
+           load:    `accepted` | `rejected-syntax` | `rejected-build` | `rejected-add` (duplicate) | `rejected-notmodule`
            process: the canonical dump of the outcome (Goyang.Model.Dump, records joined by " ; ")
            read:    `found <hex of Entry.Path()>` | `found ~` (nil) | `nomodule` | `unprocessed`
 
-A text the generic parser rejected travels as `L 0 F name E` (no statements).
+A text the generic parser rejected travels in the L form as `L 0 F name E` (no statements).
 -/
 open Goyang Goyang.Proto Goyang.Model
 
@@ -26,6 +29,10 @@ def decOps : (fuel : Nat) → List String → Except DecErr (List Op)
     match Wire.decStr k, Wire.decStr p with
     | some k, some p => (decOps fuel rest).map (Op.read k p :: ·)
     | _, _ => .error .undecodable
+  | fuel + 1, "T" :: n :: t :: rest =>
+    match decBytes n, decBytes t with
+    | some n, some t => (decOps fuel rest).map (Op.load (.text n t) :: ·)
+    | _, _ => .error .undecodable
   | fuel + 1, "L" :: ok :: rest =>
     match rest with
     | "F" :: _ =>
@@ -33,7 +40,7 @@ def decOps : (fuel : Nat) → List String → Except DecErr (List Op)
       | some ([f], rest) =>
         match outsideL "" f.stmts with
         | some why => .error (.outside why)
-        | none => (decOps fuel rest).map (Op.load f (ok == "1") :: ·)
+        | none => (decOps fuel rest).map (Op.load (.stmts f (ok == "1")) :: ·)
       | _ => .error .undecodable
     | _ => .error .undecodable
   | _, _ => .error .undecodable
@@ -43,6 +50,12 @@ def showOut (s : Session) : Out → String
   | .rejected .build => "rejected-build"
   | .rejected (.add _) => "rejected-add"
   | .rejected (.notModule _) => "rejected-notmodule"
+  | .rejected (.text .rejectedSyntax) => "rejected-syntax"
+  | .rejected (.text .rejectedBuild) => "rejected-build"
+  | .rejected (.text .rejectedTop) => "rejected-notmodule"
+  | .rejected (.text .rejectedAdd) => "rejected-add"
+  | .rejected (.text (.outside w)) => "outside " ++ w
+  | .rejected (.text .accepted) => "rejected-?"      -- not produced by `tryLoadSrc`
   | .processed o => dumpOutcome o
   | .found none => "found ~"
   | .found (some loc) =>
@@ -53,12 +66,19 @@ def showOut (s : Session) : Out → String
   | .unprocessed => "unprocessed"
 
 /-- Run the ops, rendering each answer in the state it left behind (a found node is printed as
-its path in the tree of that state). -/
-def runShow (s : Session) : List Op → List String
-  | [] => []
+its path in the tree of that state).  `none`: a loaded module holds a statement the resolver model
+does not interpret, or the front end declined a text. -/
+def runShow (s : Session) : List Op → Except String (List String)
+  | [] => .ok []
   | op :: ops =>
     let (s', o) := Session.step plugFull s op
-    showOut s' o :: runShow s' ops
+    match o with
+    | .rejected (.text (.outside w)) => .error w
+    | _ =>
+      -- statements of modules that were just added
+      match (s'.reg.mods.drop s.reg.mods.length).findSome? fun m => outside "" m.stmt with
+      | some why => .error why
+      | none => (runShow s' ops).map (showOut s' o :: ·)
 
 def handle : List String → String
   | "session" :: ic :: ins :: rest =>
@@ -67,7 +87,9 @@ def handle : List String → String
     | .error .undecodable => "outsideModel undecodable"
     | .ok ops =>
       let opts : Opts := { ignoreCircular := ic == "1", ignoreNotSupported := ins == "1" }
-      " || ".intercalate (runShow { opts := opts } ops)
+      match runShow { opts := opts } ops with
+      | .error why => "outsideModel " ++ why
+      | .ok answers => " || ".intercalate answers
   | _ => "bad-op"
 
 def main : IO Unit := Proto.loop handle
